@@ -116,6 +116,31 @@ def do_mutate(runner, st, op):
         donor = S.Plain(v=9998)
         donor.add_pretasks(S.Pre(src=S.Plain(v=9997)))
         action = lambda: node.add_pretasks_from(donor)  # noqa: E731
+    elif kind == "copy-inplace":
+        # a *legal* operation: copy a (sealed) node, then change the copy's containers in place.
+        # The submitted graph must not change (no container may be shared with the copy).
+        from experimaestro import copyconfig
+        from .kernel import Abandon
+
+        try:
+            cp = copyconfig(node)
+        except Abandon:
+            raise
+        except BaseException as e:
+            k.log("copy-mutate", x=x, node=node_name, copied=False, exc=type(e).__name__, graph_same=True, changed=0)
+            return
+        changed = 0
+        for name, v in sorted(cp.__xpm__.values.items()):
+            if isinstance(v, list) and v:
+                v.append(v[0])
+                changed += 1
+            elif isinstance(v, dict) and v:
+                v["zz-added"] = next(iter(v.values()))
+                changed += 1
+        same = serialize(task) == st.params0.get(x)
+        k.count("probe:copy-then-inplace-change")
+        k.log("copy-mutate", x=x, node=node_name, copied=True, changed=changed, graph_same=same)
+        return
     elif kind == "identifier":
         # interleaved identifier request (no mutation)
         _ = node.__xpm__.identifier.all.hex()
